@@ -533,13 +533,16 @@ class RefIdentity:
         return z
 
 
-def _ref_transformer(t):
-    """own implementations where the definition is two lines; the package's transformer otherwise (its own behaviour is C13's business)"""
+def _ref_transformer(t, own=True):
+    """own implementations where the definition is two lines; the package's transformer otherwise (its own behaviour is C13's business).
+    own=False: the package's detrender also here - used in front of numerically optimised forecasters (exponential smoothing family), whose
+    optimum moves in the 4th-7th digit when their input moves in the 12th (own least squares vs the package's), so that only a bit-identical
+    input gives a comparison tighter than the effects looked for"""
     if t[0] == "optional":
         # OptionalPassthrough(T, passthrough=False) means exactly T; with passthrough=True it means nothing at all
         # (the wrapper has no update of its own, so the wrapped transformer stays as fitted while the pipeline is updated)
-        return RefIdentity() if t[1].get("passthrough", False) else RefFrozen(_ref_transformer(t[2]))
-    if t[0] == "detrend" and not t[1].get("default"):
+        return RefIdentity() if t[1].get("passthrough", False) else RefFrozen(_ref_transformer(t[2], own))
+    if t[0] == "detrend" and not t[1].get("default") and own:
         return RefDetrend(t[1].get("degree", 1))
     if t[0] == "log":
         return RefLog()
@@ -562,7 +565,7 @@ class Ref:
         elif k == "multiplex":
             self.member = Ref(s[2][s[1].get("selected", 0)]).fit(y, fh)
         elif k == "pipeline":
-            self.ts = [_ref_transformer(t) for t in s[2]]
+            self.ts = [_ref_transformer(t, own=not _uses_optimiser(s[3])) for t in s[2]]
             yt = y
             for t in self.ts:
                 yt = t.fit_transform(yt)
